@@ -346,6 +346,9 @@ func (s *Sim) onRefused(p *Pkt, in *PktInfo, mo *MsgObs, ack AckInfo) {
 	if !in.Canon || !in.KnownGood || p.Byz {
 		return
 	}
+	if s.ModeB != nil && len(s.ModeB.Plan.Fail) > 0 {
+		return // a downstream failure was injected into this delivery
+	}
 	if strings.HasPrefix(p.Class, "refuse:") || strings.HasPrefix(p.Class, "free") {
 		return
 	}
